@@ -3,8 +3,9 @@
      ReprColumn.to_fmt_str (901-917), _ColumnsParsedFmt (920-1034),
      ReprStructure.make / _set_parsed_fmt / detect_actual_columns_widths,
      _PPTableParsedFmt, PPTableFormat (make, clone, _set_parsed_fmt, _get_fmt_str),
-     _PPTableImpl (__init__, set_fmt, remove_columns, the part of gen_ch_lines
-     that decides visible lines / any_lines_skipped / column widths).
+     _PPTableImpl (__init__ with fmt= and with fmt_obj=, set_fmt, remove_columns,
+     the part of gen_ch_lines that decides visible lines / any_lines_skipped /
+     column widths).
    Rendering of cells is NOT modelled: a print yields a [view] = everything the
    renderer reads from the format (column widths, visible lines, skipped count).
    Strings are lists of code points.  No proofs in this file. *)
@@ -363,6 +364,22 @@ Definition remove_columns (t : tstate) (names : list str) : tstate :=
   mkT (t_fields t)
       (filter (fun c => negb (existsb (str_eqb (c_name c)) names)) (t_cols t))
       (t_lf t) (t_ll t) (t_skipped t).
+
+(* PPTableFormat.clone(): ReprStructure.clone() makes a NEW ReprColumn for every
+   column (ReprColumn.clone: everything but the negotiated width), the record
+   structure is shared (immutable), the limits are copied, any_lines_skipped
+   starts unset.  The clone shares nothing mutable with the original. *)
+Definition clone_fmt (t : tstate) : tstate :=
+  mkT (t_fields t) (map clone_col (t_cols t)) (t_lf t) (t_ll t) None.
+
+(* PPTable(records, fmt_obj=x, limits=lim, skip_columns=skip):
+   _PPTableImpl._init_format clones x (fields / fields_types / fmt must be None),
+   then set_limits(limits), then remove_columns(skip_columns) on the clone *)
+Definition ctor_obj (x : tstate) (lim : option limits) (skip : option (list str)) : tstate :=
+  let c := clone_fmt x in
+  let '(lf, ll) := match lim with Some v => v | None => (t_lf c, t_ll c) end in
+  let t := mkT (t_fields c) (t_cols c) lf ll None in
+  match skip with Some names => remove_columns t names | None => t end.
 
 (* ReprStructure.make with an explicit [fields] list: unknown field ->
    AttributeError (get_field gives None), hidden columns (max_w < 0) dropped *)
